@@ -6,8 +6,8 @@ import F3.Props.C01
 Layer A/N part: every decided value is non-bottom and *good* (instantiated below with "non-empty prefix
 of the input chain of some honest participant", whence it starts at the common base). The guard that
 makes this an invariant — an honest PREPARE is for a good value of its own, or for a value that
-already had a strong PREPARE quorum in an earlier round — is the Layer-B lemma `votes_backed`
-(C07) about the executable model (candidate set soundness).
+already had a strong PREPARE quorum in an earlier round — is proved of the executable model
+(`F3.Instance.runFrom_guarded`, candidate-set soundness `CandOK`), giving `validity_model`.
 
 The second sentence of the property (unanimous honest input + synchrony ⇒ that chain is decided) is a
 liveness statement under a real-time bound; see `unanimous_decides_partial` in Props/C06.
@@ -69,5 +69,33 @@ theorem prepare_quorum_good (c : Params P V) (hb : faultBound c) {s : Votes P V}
 example : ∃ s, Reachable exC s ∧ Decided exC s 7 ∧ (7 ≠ exC.bot ∧ ∃ h, h ∉ exC.faulty ∧ exC.good h 7) := by
   obtain ⟨s, hr, hd, _, _⟩ := ex_decided
   exact ⟨s, hr, hd, validity_network exC ex_bound hr hd⟩
+
+
+/-! ## Validity of the executable model -/
+section Model
+open F3.Instance F3.Bridge
+
+/-- **Validity, end to end for the model of the code** (hypotheses as in `C01.agreement_model`): a decision
+reported by an honest participant is a non-empty prefix of the input chain of some honest committee member. -/
+theorem validity_model {t : Table} {F : Finset Pid} {W : Instance.Votes} (N : Network t F W)
+    (p : Pid) (hp : p ∈ (ids t).toFinset) (hpF : p ∉ F) (d : Just)
+    (hd : (run (init (N.runs p hp hpF).cfg t (N.runs p hp hpF).input) (N.runs p hp hpF).ops).1.termination = some d) :
+    d.value ≠ [] ∧ ∃ h, ∃ hh : h ∈ (ids t).toFinset, ∃ hF : h ∉ F, d.value <+: (N.runs h hh hF).input :=
+  model_validity N p hp hpF d hd
+
+/-- ... and starts at the common base when all honest inputs do. -/
+theorem validity_model_base {t : Table} {F : Finset Pid} {W : Instance.Votes} (N : Network t F W) (b : Nat)
+    (hbase : ∀ h (hh : h ∈ (ids t).toFinset) (hF : h ∉ F), (N.runs h hh hF).input.head? = some b)
+    (p : Pid) (hp : p ∈ (ids t).toFinset) (hpF : p ∉ F) (d : Just)
+    (hd : (run (init (N.runs p hp hpF).cfg t (N.runs p hp hpF).input) (N.runs p hp hpF).ops).1.termination = some d) :
+    d.value.head? = some b :=
+  model_validity_base N b hbase p hp hpF d hd
+
+/-- Non-vacuity: in the example network of `F3.Bridge` honest member 1 decides `[7, 8]`, a prefix of its input. -/
+example : ∃ d, (run (init (exNet.runs 1 (by decide) (by decide)).cfg exTbl (exNet.runs 1 (by decide) (by decide)).input)
+      (exNet.runs 1 (by decide) (by decide)).ops).1.termination = some d ∧ d.value = [7, 8] :=
+  ex_network_decides.2.2
+
+end Model
 
 end F3.Props.C02
